@@ -163,7 +163,10 @@ def run_tlc(specdir, module, cfg, name=None, timeout=900, workers=1, heap="3g", 
     with open(cfgp, "w") as f:
         f.write(cfg)
     meta = os.path.join(specdir, "meta-" + name)
-    cmd = ["java", "-Xss512m", "-Xmx" + heap, "-XX:+UseParallelGC", "-XX:ParallelGCThreads=2"] + list(javaopts) + \
+    # (TLC leaves an empty tlc-<n> directory in java.io.tmpdir at every start: it goes into the scratch copy, which is removed)
+    jtmp = os.path.join(specdir, "jtmp-" + name)
+    os.makedirs(jtmp, exist_ok=True)
+    cmd = ["java", "-Xss512m", "-Xmx" + heap, "-XX:+UseParallelGC", "-XX:ParallelGCThreads=2", "-Djava.io.tmpdir=" + jtmp] + list(javaopts) + \
           ["-cp", TLA_CP, "tlc2.TLC", "-workers", str(workers), "-metadir", meta, "-config", cfgp] + list(extra_args) + \
           [os.path.join(specdir, module + ".tla")]
     res = TlcResult()
